@@ -434,6 +434,28 @@ pub fn check_tree(t: &T, fail_at: &[usize]) -> (Option<(String, String)>, usize)
             calls,
         );
     }
+    // the same combinator value applied a second time (fresh tape, cleared log) behaves identically:
+    // combinators keep nothing between applications
+    if fail_at.is_empty() {
+        log.borrow_mut().calls.clear();
+        let mut rng2 = TapeRng::default();
+        let again = mcx::guarded(|| op.apply(V::Leaf(7), &mut rng2));
+        let again_log = log.borrow().clone();
+        let same = match (&again, &real) {
+            (Ok(Ok(a)), Ok(b)) => a == b,
+            (Ok(Err(a)), Err(b)) => a.0 == b.0,
+            _ => false,
+        };
+        if !same || again_log.calls != real_log.calls || rng2.pos != rng.pos {
+            return (
+                Some((
+                    format!("compose/second-application/{}", kind(t)),
+                    format!("{label}: applied a second time the same value gave {again:?} with parts run as {:?} ({} words); the first application gave {real:?} with {:?} ({} words)", again_log.calls, rng2.pos, real_log.calls, rng.pos),
+                )),
+                calls,
+            );
+        }
+    }
     (None, calls)
 }
 
